@@ -199,6 +199,8 @@ struct Step {
     langs: &'static str,
     target: &'static str,
     cwd: &'static str,
+    /// a file rewritten before the step (path, content); its mtime is set into the past
+    edit: Option<(&'static str, &'static str)>,
 }
 
 /// Scripted scenarios around what the cache is keyed and validated by: custom languages sharing an
@@ -234,9 +236,12 @@ fn language_history(sink: &mut Sink, scratch: &str, bin: &str, variant: usize) {
         std::fs::write(dir.join(f), c).unwrap();
         p.set_mtime(f, 1_600_000_000);
     }
+    let _ = std::os::unix::fs::symlink("b.rs", dir.join("link.rs"));
+    // the link itself is old too (the pinned clock is in the past of the real one)
+    let _ = std::process::Command::new("touch").args(["-h", "-d", "@1600000000", "link.rs"]).current_dir(&dir).output();
     let one = |name: &str, m: &str| format!("[languages.{name}]\nextensions = [\"mine\"]\nsingle_line_comments = [{m}]\n");
     let l = |parts: &[(&str, &str)]| -> &'static str { Box::leak(parts.iter().map(|(n, m)| one(n, m)).collect::<String>().into_boxed_str()) };
-    let all = |langs: &'static str| Step { langs, target: ".", cwd: "" };
+    let all = |langs: &'static str| Step { langs, target: ".", cwd: "", edit: None };
     let steps: Vec<Step> = match variant {
         0 => vec![all(l(&[("Aaa", "\"#\""), ("Zzz", "\";\"")])), all(l(&[("Aaa", "\"#\""), ("Zzz", "\"//\"")])), all(l(&[("Aaa", "\"#\""), ("Zzz", "\"#\"")]))],
         1 => vec![all(l(&[("Aaa", "\"#\""), ("Zzz", "\";\"")])), all(l(&[("Aaa", "\"#\""), ("Bbb", "\";\""), ("Zzz", "\"//\"")])), all(l(&[("Aaa", "\";\""), ("Bbb", "\"#\"")]))],
@@ -249,16 +254,26 @@ fn language_history(sink: &mut Sink, scratch: &str, bin: &str, variant: usize) {
             all("[languages.Mine]\nextensions = [\"mine\"]\nsingle_line_comments = [\"#;\"]\n"),
         ],
         // a configuration change, then an invocation that covers part of the tree, then the whole tree
-        5 => vec![all(l(&[("Mine", "\"#\"")])), Step { langs: l(&[("Mine", "\";\"")]), target: "src", cwd: "" }, all(l(&[("Mine", "\";\"")]))],
-        6 => vec![all(l(&[("Mine", "\"#\"")])), Step { langs: l(&[("Mine", "\";\"")]), target: "mail", cwd: "" }, Step { langs: l(&[("Mine", "\";\"")]), target: "src", cwd: "" }, all(l(&[("Mine", "\";\"")]))],
+        5 => vec![all(l(&[("Mine", "\"#\"")])), Step { langs: l(&[("Mine", "\";\"")]), target: "src", cwd: "", edit: None }, all(l(&[("Mine", "\";\"")]))],
+        6 => vec![all(l(&[("Mine", "\"#\"")])), Step { langs: l(&[("Mine", "\";\"")]), target: "mail", cwd: "", edit: None }, Step { langs: l(&[("Mine", "\";\"")]), target: "src", cwd: "", edit: None }, all(l(&[("Mine", "\";\"")]))],
         // the same project entered from its sub-directories (the configuration is discovered upwards)
-        7 => vec![all(l(&[("Mine", "\"#\"")])), Step { langs: l(&[("Mine", "\"#\"")]), target: ".", cwd: "src" }, Step { langs: l(&[("Mine", "\"#\"")]), target: ".", cwd: "src/sub" }, all(l(&[("Mine", "\"#\"")]))],
-        _ => vec![Step { langs: l(&[("Mine", "\"#\"")]), target: ".", cwd: "src/sub" }, Step { langs: l(&[("Mine", "\"#\"")]), target: "sub", cwd: "src" }, all(l(&[("Mine", "\"#\"")])), Step { langs: l(&[("Mine", "\"#\"")]), target: "..", cwd: "src" }],
+        7 => vec![all(l(&[("Mine", "\"#\"")])), Step { langs: l(&[("Mine", "\"#\"")]), target: ".", cwd: "src", edit: None }, Step { langs: l(&[("Mine", "\"#\"")]), target: ".", cwd: "src/sub", edit: None }, all(l(&[("Mine", "\"#\"")]))],
+        // a source file reached through a symbolic link and named explicitly; its target is edited
+        9 => vec![
+            Step { langs: l(&[("Mine", "\"#\"")]), target: "--files link.rs", cwd: "", edit: None },
+            Step { langs: l(&[("Mine", "\"#\"")]), target: "--files link.rs", cwd: "", edit: Some(("b.rs", "let a = 1;\nlet b = 2;\nlet c = 3;\nlet d = 4;\n")) },
+            Step { langs: l(&[("Mine", "\"#\"")]), target: "--files link.rs", cwd: "", edit: Some(("b.rs", "// only a comment now, of another size\n")) },
+        ],
+        _ => vec![Step { langs: l(&[("Mine", "\"#\"")]), target: ".", cwd: "src/sub", edit: None }, Step { langs: l(&[("Mine", "\"#\"")]), target: "sub", cwd: "src", edit: None }, all(l(&[("Mine", "\"#\"")])), Step { langs: l(&[("Mine", "\"#\"")]), target: "..", cwd: "src", edit: None }],
     };
     let mut pred = None;
     let now = 1_700_000_000u64;
     for (k, st) in steps.iter().enumerate() {
         std::fs::write(dir.join(".sloc-guard.toml"), format!("version = \"2\"\n[content]\nmax_lines = 2\nextensions = [\"mine\", \"rs\"]\n{}", st.langs)).unwrap();
+        if let Some((f, c)) = st.edit {
+            std::fs::write(dir.join(f), c).unwrap();
+            p.set_mtime(f, 1_600_000_100 + k as u64);
+        }
         let sub = Proj { dir: dir.join(st.cwd), bin: bin.to_string() };
         for cmd in 0..2 {
             let run = |cached: bool| {
@@ -266,7 +281,9 @@ fn language_history(sink: &mut Sink, scratch: &str, bin: &str, variant: usize) {
                 if !cached {
                     args.push("--no-sloc-cache");
                 }
-                args.push(st.target);
+                // `--files x` for check, the bare path for stats
+                let parts: Vec<&str> = st.target.split(' ').collect();
+                if cmd == 0 { args.extend(parts.iter()); } else { args.push(parts[parts.len() - 1]); }
                 let (rc, out, err) = sub.run(now + k as u64, &args);
                 (rc, per_file(&out, cmd), err)
             };
@@ -278,7 +295,7 @@ fn language_history(sink: &mut Sink, scratch: &str, bin: &str, variant: usize) {
         }
     }
     let _ = std::fs::remove_dir_all(&dir);
-    let kind = match variant { 0..=2 => "shared-extension", 3 | 4 => "marker-concatenation", 5 | 6 => "partial-tree-after-config-change", _ => "started-in-subdirectory" };
+    let kind = match variant { 0..=2 => "shared-extension", 3 | 4 => "marker-concatenation", 5 | 6 => "partial-tree-after-config-change", 9 => "symlinked-file-edited", _ => "started-in-subdirectory" };
     sink.push(Case { request: "noop".into(), implementation: "-".into(), pred: pred.map_or_else(|| "ok".to_string(), |p| format!("FAIL {p}")), tag: format!("languages/{kind}/{variant}") });
 }
 
@@ -358,7 +375,7 @@ pub fn run(tier: Tier, seed: u64, out: &str) {
         for sc in &scripts {
             history(&mut sink, &mut r, &scratch, &bin, true, Some(sc));
         }
-        for v in 0..9 {
+        for v in 0..10 {
             language_history(&mut sink, &scratch, &bin, v);
         }
         for i in 0..tier.scale(250, 10_000) {
